@@ -76,6 +76,18 @@ Proof. vm_compute. reflexivity. Qed.
 (* The model is tied to the CURRENT source: the order-of-effects facts about nsqd's core
    functions that the model assumes (proofs/CoreSrcDefs.v) hold of the statement skeletons
    regenerated from /repo on this run (gen/CoreShape.v). *)
+(* ... and it applies to EVERY connected, subscribed consumer: in every reachable state such a
+   consumer is attached to its channel (deleting a channel or topic closes its consumers, an
+   ephemeral channel only goes with its last consumer), so its counter equals the in-flight
+   entries it owns there *)
+From NSQV Require proofs.CoreAttached.
+Theorem C13_connected_counter_exact : forall cfg ops kl t c,
+  let s := run cfg init ops in
+  In kl (s_clients s) -> k_alive kl = true -> k_sub kl = Some (t, c) ->
+  exists ch, get_chan s t c = Some ch /\ In (k_id kl) (c_clients ch) /\ k_ifl kl = owned (k_id kl) (c_ifl ch).
+Proof. exact CoreAttached.connected_counter_exact. Qed.
+Print Assumptions C13_connected_counter_exact.
+
 From NSQV Require proofs.CoreSrcDefs proofs.CoreSrcC13.
 Theorem C13_source_shape : CoreSrcDefs.src_facts_C13.
 Proof. exact CoreSrcC13.src_C13. Qed.
